@@ -11,7 +11,8 @@ Local Open Scope Z_scope.
 
 (* Same union of metadata => same outcome: the same error, or the identical hierarchy,
    ordering and rows.  For ALL stream lists.  [rank_names_proc]: no rank is claimed by two
-   different processes; "by rank" names no order otherwise (see C15_union_rank_ties_refuted). *)
+   different processes; the statement is false otherwise (C15_union_rank_ties_refuted, finding
+   rank-ties-order-dependent). *)
 Theorem C15_union : forall m1 m2, rank_names_proc m1 -> same_union m1 m2 -> build m1 = build m2.
 Proof. exact build_union. Qed.
 Print Assumptions C15_union.
@@ -50,8 +51,10 @@ Proof. exact unfixed_union_crashes. Qed.
 Print Assumptions C15_union_refuted.
 
 (* Without [rank_names_proc] C15_union is false (repaired or not): two processes with the same
-   rank are ordered by stream enumeration order.  The property text does not say what the order
-   of equal ranks is; recorded, not counted as a violation. *)
+   rank are ordered by stream enumeration order (stable sort on equal keys), so the rows are not a
+   function of the metadata union alone.  The witness (w_tie1 / w_tie2 in Proofs/MetaProofs.v) is
+   corpus/C15/05-rank-tie.json; the real ovniemu reproduces it and the check reports it under the
+   key  rank-ties-order-dependent  (a finding listed in known_findings.txt). *)
 Theorem C15_union_rank_ties_refuted :
   exists m1 m2 s1 s2, same_union m1 m2 /\ build m1 = Ok s1 /\ build m2 = Ok s2 /\ thread_rows s1 <> thread_rows s2.
 Proof. exact union_needs_distinct_ranks. Qed.
